@@ -46,7 +46,7 @@ fn tuples<S: PS>(ctx: &Ctx, acc: &mut Acc) -> Vec<Tuple> {
         acc.inconclusive("cannot load key".into());
         return out;
     };
-    let ctx_lens = [0usize, 1, 255, 17, 128, 2];
+    let ctx_lens = [255usize, 1, 0, 17, 128, 2];
     let msg_lens = [64usize, 1, 33, 0, 200, 8];
     for i in 0..n_honest {
         let mode = if i == 0 { Mode::Pure } else if i == 1 { *g.pick(&[Mode::Sha256, Mode::Sha512, Mode::Shake128]) } else { MODES[i % 4] };
